@@ -759,6 +759,16 @@ DOC_LIMIT = {'postgres': 63, 'mysql': 64, 'oracle': 30, 'sqlite': None}
 Oracle 30 bytes (before 12.2, the versions pony's provider targets); SQLite has none (pony uses 1024)"""
 
 
+def _fk_types_ok(fk):
+    """every referencing column has the type of the key column it references (auto-increment keys: the plain integer type
+    the provider's own get_fk_type names for them)"""
+    if len(fk.child_columns) != len(fk.parent_columns): return False
+    for c, p in zip(fk.child_columns, fk.parent_columns):
+        want = p.converter.get_fk_type(p.sql_type) if p.converter is not None else p.sql_type
+        if c.sql_type != want: return False
+    return True
+
+
 def _check_schema(db, pname, limit, expect_cols, nullable=()):
     """shared assertions on a generated schema: names, and the schema matches the entity model; `nullable`: names of
     attributes declared with nullable=True; limit None: the provider's real limit, checked against the documented one"""
@@ -789,6 +799,7 @@ def _check_schema(db, pname, limit, expect_cols, nullable=()):
                     if len(mt.foreign_keys) != 2: return False
                     for fk in mt.foreign_keys.values():
                         if fk.on_delete != 'CASCADE' or fk.parent_columns != fk.parent_table.pk_index.columns: return False
+                        if not _fk_types_ok(fk): return False
                 continue
             cols = attr.columns
             total += len(cols)
@@ -815,6 +826,7 @@ def _check_schema(db, pname, limit, expect_cols, nullable=()):
                 fk = t.foreign_keys.get(cobjs)
                 pt = schema.tables[attr.reverse.entity._table_]
                 if fk is None or fk.parent_table is not pt or fk.parent_columns != pt.pk_index.columns: return False
+                if not _fk_types_ok(fk): return False
                 want = 'CASCADE' if attr.reverse.cascade_delete else ('SET NULL' if not attr.is_required else None)
                 if fk.on_delete != want: return False
                 if not any(k[:len(cobjs)] == cobjs for k in t.indexes): return False
@@ -852,9 +864,10 @@ def _mapping_rel(pname, la, lb, pk2, rel1, rel2, self_rel):
     A, B = [], []
     ncols = 0
     if pk2:
-        A += ['x = Required(int)', 'y = Required(int)', 'PrimaryKey(x, y)']
+        A += ['x = Required(int)', 'y = Required(str, 20)', 'PrimaryKey(x, y)']      # key columns of different types
         npk = 2
     else: npk = 1
+    B.append('id = PrimaryKey(str, 10)')                                              # ... and different from B's key type
     ncols += npk + 1                           # A's key + B's id
     S = dict(NA=NA, NB=NB)
     if rel1 == 1: B.append('a = Required("%(NA)s")' % S); A.append('bs = Set("%(NB)s")' % S); ncols += npk
@@ -950,6 +963,50 @@ def mapping_inherit(dialect: int, pk2: bool, rel: int, where: bool, data: int) -
     pk2, rel, where, data = cbool(pk2), conc(rel, 3), cbool(where), conc(data, 4)
     with NoTracing():
         return ok(_mapping_inherit(pname, pk2, rel, where, data))
+
+
+TIME_DEFAULT = {'sqlite': 6, 'postgres': 6, 'mysql': 0, 'oracle': 6}
+"""fractional-second digits of a column declared WITHOUT a precision: SQLite keeps the text pony writes (6 digits), PostgreSQL
+TIMESTAMP/TIME/INTERVAL default to 6 (manual 8.5), Oracle TIMESTAMP defaults to 6, MySQL DATETIME/TIME default to 0 (manual 11.2.6)"""
+
+
+def _time_type(pname, kind, p):
+    import datetime
+    db = mock_db(pname, None)
+    db.provider.max_time_precision = 6               # (a server that supports fractional seconds: MySQL >= 5.6.4)
+    py = (datetime.datetime, datetime.time, datetime.timedelta)[kind]
+    kw = '' if p < 0 else ', precision=%d' % p
+    ns = {'datetime': datetime}
+    try:
+        E = define(db, 'E', ['import datetime', 'v = Optional(datetime.%s%s)' % (py.__name__, kw)])
+        db.generate_mapping(check_tables=False, create_tables=False)
+    except REJECTED:
+        return True
+    except (TypeError, ValueError):
+        return True
+    col = db.schema.tables[E._table_].column_dict[E.v.columns[0]]
+    sql_type = col.sql_type
+    eff = TIME_DEFAULT[pname] if p < 0 else p          # digits the converter keeps
+    if E.v.converters[0].precision != eff and not (p < 0): return False
+    import re
+    digits = re.findall(r'\((\d+)\)', sql_type)
+    if eff == TIME_DEFAULT[pname]:
+        # the bare type name already means this precision; an explicit "(p)" with the same value is fine too
+        return all(int(d) == eff or 'DAY(' in sql_type for d in digits[-1:]) if digits else True
+    return bool(digits) and int(digits[-1]) == eff
+
+
+def time_precision(dialect: int, kind: int, p: int) -> bool:
+    """the column type of a datetime / time / timedelta attribute keeps exactly the fractional digits the converter keeps
+
+    pre: 0 <= dialect < 4 and 0 <= kind <= 2 and -1 <= p <= 6
+    pre: dialect != 3 or kind == 0
+    post: _
+    """
+    pname = DIALECTS[conc(dialect, 4)]
+    kind, p = conc(kind, 3), conc(p + 1, 8) - 1
+    with NoTracing():
+        return ok(_time_type(pname, kind, p))
 
 
 def _name_of(n, first):
